@@ -31,6 +31,65 @@ def err_sig(e):
     return re.sub(r"[0-9(),\[\]'-]+", "#", f"{type(e).__name__}: {e}")[:36]
 
 
+def stale_cached_chunks(expr, cfg):
+    """is there a node whose CACHED .chunks differ from what its own chunks rule computes under the configuration in effect
+    now?  (finding F5b: chunk unification reads array.unify-chunks-policy when .chunks is first asked, the value is cached on
+    the singleton node, and a later lowering under another policy plans against a different grid)"""
+    import functools
+    try:
+        with dask.config.set(cfg), warnings.catch_warnings():
+            warnings.simplefilter("ignore")
+            for n in expr.walk():
+                c = getattr(type(n), "chunks", None)
+                if isinstance(c, functools.cached_property) and "chunks" in getattr(n, "__dict__", {}):
+                    try:
+                        if c.func(n) != n.__dict__["chunks"]:
+                            return True
+                    except Exception:  # noqa: BLE001
+                        continue
+    except Exception:  # noqa: BLE001
+        pass
+    return False
+
+
+def f5b_witness(chk, da):
+    """deterministic reproducer of finding F5b: a collection M containing P as a sub-expression is computed under the default
+    policy and stays alive; P is then built and computed under array.unify-chunks-policy=coarse"""
+    from dask_array import _materialize
+    _materialize._LOWER_CACHE.clear()
+    s0 = np.array([-3, 0, 3, 6, -2, 1, 4])
+    s1 = np.array([-4, 1, 6, -2, 3, -5, 0])
+    s2 = np.array([[-3, 0, 3, 6, -2, 1, 4], [-4, -1, 2, 5, -3, 0, 3]])
+    st = np.stack([s0 * np.arange(7), s1])
+    want = int(np.argmin(np.where(st > 0, st, s2)))
+
+    def P():
+        a0, a1, a2 = da.from_array(s0, chunks=((5, 2),)), da.from_array(s1, chunks=1), da.from_array(s2, chunks=((1, 1), (3, 4)))
+        t = da.stack([a0 * da.arange(7, chunks=1), a1], 0)
+        return da.argmin(da.where(t > 0, t, a2), axis=None, split_every=2)
+    with warnings.catch_warnings():
+        warnings.simplefilter("ignore")
+        with dask.config.set({"array.unify-chunks-policy": "auto"}):
+            m = da.expand_dims(P(), 0) + 1
+            first = int(m.compute(scheduler="sync")[0]) - 1
+        # optimize-graph off: the lowering cache holds no form for this (name, flag) yet, so P is lowered afresh under 'coarse'
+        cfg = {"array.unify-chunks-policy": "coarse", "array.optimize-graph": False}
+        with dask.config.set(cfg):
+            p = P()
+            second = int(p.compute(scheduler="sync"))
+            stale = stale_cached_chunks(p.expr, cfg)
+    chk.case(("corpus", "F5b"), nontrivial=True)
+    chk.count("witness:F5b:" + ("reproduced" if second != want else "not-reproduced"))
+    if first != want or second != want:
+        chk.violation(f"value depends on the configuration history: argmin = {first} under the default policy, {second} for the same program "
+                      f"rebuilt under unify-chunks-policy=coarse (optimize-graph off) while a collection sharing the sub-expression is alive (NumPy {want})",
+                      {"program": "argmin(where(stack([a0*arange(7), a1]) > 0, ., a2), axis=None, split_every=2); a0@(5,2) a1@1 a2@((1,1),(3,4))",
+                       "first": first, "second": second, "numpy": want},
+                      signature={"class": "value", "config_keys": ["array.unify-chunks-policy"], "flat_nd_arg_tie": False, "stale_cached_chunks": stale})
+    del m, p
+    _materialize._LOWER_CACHE.clear()
+
+
 def flat_nd_arg_tie(prog, sources):
     """does the program contain argmin/argmax(axis=None) over an N-D value whose extremum occurs more than once?  (finding F10:
     which of the equal extrema is reported follows the block grid / tree shape)"""
@@ -109,8 +168,10 @@ def run_history(chk, da, rng, hid):
         else:
             chk.violation(f"value depends on history/configuration ({why})",
                           {"program": progs.show(p), "history": [(a, j, c) for a, j, c in steps[: sidx + 1]], "members": [progs.show(q) for q, _ in members],
-                           "config": cfg, **progs.describe(p, sources)},
-                          signature={"class": "value", "config_keys": sorted(cfg), "flat_nd_arg_tie": flat_nd_arg_tie(p, sources)})
+                           "config": cfg, **progs.describe(p, sources), "members_repr": [repr(q) for q, _ in members],
+                           "all_sources": {k: {"shape": list(a.shape), "chunks": c, "data": a.tolist() if a.size <= 600 else None} for k, (a, c) in enumerate(sources)}},
+                          signature={"class": "value", "config_keys": sorted(cfg), "flat_nd_arg_tie": flat_nd_arg_tie(p, sources),
+                                     "stale_cached_chunks": stale_cached_chunks(live[i].expr, cfg)})
     _materialize._LOWER_CACHE.clear()
 
 
@@ -628,6 +689,7 @@ def f5_witness(chk, da):
 def model_family(chk, da):
     rng = random.Random(f"{chk.pid}-model-family-{chk.seed}")     # own stream: the checks above keep theirs
     f5_witness(chk, da)
+    f5b_witness(chk, da)
     log = CacheLog()
     cases, descs = [], []
     n = 1500 if chk.tier == "thorough" else 100
